@@ -363,12 +363,20 @@ PROFILES = {
 
 
 def gen_spec(rng: random.Random, profile='plain', n_min=3, n_max=8, fail_p=0.15, modes=('coro',),
-             retry_p=0.3, falsy_p=0.15, cb_p=0.0, hash_fail_p=0.0):
+             retry_p=0.3, falsy_p=0.15, cb_p=0.0, hash_fail_p=0.0, cbraise_p=0.0):
     """generate a spec; for a construct profile, retry (same PRNG stream) when pruning left a plain pipeline"""
     for _ in range(4):
         spec = _gen_spec(rng, profile, n_min, n_max, fail_p, modes, retry_p, falsy_p, cb_p, hash_fail_p)
         if profile == 'plain' or shape_class(spec) != 'plain':
             break
+    if cbraise_p and rng.random() < cbraise_p:
+        # one failing collaborator call site: an event callback or the artifact store raises (every time it is called)
+        kind = rng.choice(['nstart', 'ncomplete', 'ncomplete', 'save', 'save', 'pstart', 'pcomplete'])
+        cls = rng.choice(['E0', 'E1', 'E2', 'B0'])
+        if kind in ('pstart', 'pcomplete'):
+            spec['cbraise'] = {kind: cls}
+        else:
+            spec['cbraise'] = {kind: {str(rng.randrange(len(spec['nodes']))): cls}}
     return spec
 
 
